@@ -157,6 +157,7 @@ fn base(kind: Kind, variant: Variant, site: Site, prog: P, closer: Closer) -> Sc
         child: false,
         pg_event: false,
         busy_sup: false,
+        sup_drains: false,
     }
 }
 
@@ -191,6 +192,19 @@ fn scenarios(thorough: bool) -> Vec<Sc> {
         }
         v.push(base(kind, Variant::Linked, Site::Handle, P::SelfKill, Closer::None));
         v.push(base(kind, Variant::Linked, Site::Handle, P::SelfStop, Closer::None));
+        // a supervisor that is draining its backlog is alive: it must still be told
+        for (site, prog, closer) in [
+            (Site::Handle, P::Err, Closer::None),
+            (Site::Handle, P::Panic, Closer::None),
+            (Site::PostStart, P::Err, Closer::None),
+            (Site::Handle, P::Awaits, Closer::Stop(Some("because"))),
+            (Site::Handle, P::Awaits, Closer::Kill),
+            (Site::Handle, P::Awaits, Closer::Drain),
+        ] {
+            let mut s = base(kind, Variant::Linked, site, prog, closer);
+            s.sup_drains = true;
+            v.push(s);
+        }
     }
     v
 }
@@ -225,7 +239,7 @@ pub fn plan(tier: &str) -> Plan {
     Plan {
         property: "C04",
         units,
-        rule: "scenario grid (failure site x Err|panic x exit cause x actor kind x supervisor busy|idle) plus crash-point enumeration (the actor task is dropped before its k-th poll, every k of the default schedule), each explored by a deviation-bounded DFS over task-level schedules of the real code; oracle: the supervisor's event log holds [Started?] + exactly one correctly classified terminal event, bystander and stranger are undisturbed, the join handle completes; non-trivial = execution with >= 1 branching decision".into(),
+        rule: "scenario grid (failure site x Err|panic x exit cause x actor kind x supervisor busy|idle|draining a backlog) plus crash-point enumeration (the actor task is dropped before its k-th poll, every k of the default schedule), each explored by a deviation-bounded DFS over task-level schedules of the real code; oracle: the supervisor's event log holds [Started?] + exactly one correctly classified terminal event, bystander and stranger are undisturbed, the join handle completes; non-trivial = execution with >= 1 branching decision".into(),
         assumptions: vec![
             "task granularity".into(),
             "the monitor API only exists with ractor's monitors feature: the alt/ units run on a second build of the harness (features async-trait, monitors, cluster)".into(),
